@@ -7,18 +7,21 @@ import SeedModel.Dump
 namespace Seed
 open Gen (Leaf)
 
+/-- ` in '<f>':` when the error is rendered inside a called function -/
+def inFunc : Option (List Char) → List Char
+  | some f => c!" in '" ++ f ++ c!"':"
+  | none => []
+
 /-- `(msg, stacktrace)` of `eval_err_to_stacktrace(path, func, error)`; context wrappers are already erased -/
 def renderErr (path : List Char) (func : Option (List Char)) : Err → List Char × List (List Char)
   | .leaf l => (l.msg, [])
   | .atLoc line col e =>
     let (m, t) := renderErr path func e
-    let sep := match func with | some f => c!" in '" ++ f ++ c!"':" | none => []
-    (natToChars line ++ c!":" ++ natToChars col ++ c!":" ++ sep ++ c!" " ++ m, t)
+    (natToChars line ++ c!":" ++ natToChars col ++ c!":" ++ inFunc func ++ c!" " ++ m, t)
   | .builtinCall name loc e =>
     let next := name.getD c!"<unnamed function>"
     let (m, t) := renderErr path (some next) e
-    let sep := match func with | some f => c!" in '" ++ f ++ c!"':" | none => []
-    (natToChars loc.1 ++ c!":" ++ natToChars loc.2 ++ c!":" ++ sep ++ c!" " ++ m, t)
+    (natToChars loc.1 ++ c!":" ++ natToChars loc.2 ++ c!":" ++ inFunc func ++ c!" " ++ m, t)
   | .funcCall name loc e =>
     let next := name.getD c!"<unnamed function>"
     let (m, t) := renderErr path (some next) e
